@@ -57,12 +57,10 @@ Theorem C05_layer_order : forall (S : sig), sig_ok S -> forall c o (f : font S),
 Proof. exact layer_order. Qed.
 
 (** On every format-3 tree, however produced, norad's reader and the independent reader return
-    the same font (given one default layer, distinct guideline identifiers and no left-over
-    [public.objectLibs]). *)
+    the same font (given one default layer and distinct guideline identifiers). *)
 Theorem C05_readers_agree : forall (S : sig), sig_ok S -> forall (t : tree S) (f : font S) mc m,
   load S t = Ok f ->
   t_meta S t = Some mc -> dec (P_meta S) mc = Some m -> m_version m = 3 ->
-  d_get S OBJ (f_lib S f) = None ->
   NoDup (some_ids (map g_id (guides_of S (f_info S f)))) ->
   default_first S (f_layers S f) ->
   spec_read S t = Some f.
